@@ -48,7 +48,7 @@ def fetchFlags (mwords : List Word) (opt : AttrVal) (src : List Word) (ign : Boo
   else .ok (flags0Of mwords)
 
 /-- one word of the result: the master's alternative, starred iff its flag is set -/
-def render (flags : Flags) (w : Word) : Word :=
+def renderStar (flags : Flags) (w : Word) : Word :=
   let value := (stripStar w.value).1
   let on := (flagGet flags (lower value)).getD false
   { value := if on then '*' :: value else value, quote := w.quote, line := w.line }
@@ -59,8 +59,8 @@ theorem choiceFetch_eq (mwords : List Word) (opt : AttrVal) (src : List Word) (i
       else if isPlainAuto src then .ok [wordOf "Auto"]
       else match fetchFlags mwords opt src ign with
         | .error e => .error e
-        | .ok flags => .ok (mwords.map (render flags)) := by
-  unfold choiceFetch fetchFlags plusMode plusStep starStep render flags0Of altsErr
+        | .ok flags => .ok (mwords.map (renderStar flags)) := by
+  unfold choiceFetch fetchFlags plusMode plusStep starStep renderStar flags0Of altsErr
   rfl
 
 /-! ### the flag table -/
@@ -184,7 +184,7 @@ theorem choiceFetch_ok_shape (mwords : List Word) (opt : AttrVal) (src : List Wo
     (out : List Word) (h : choiceFetch mwords opt src ign = .ok out) :
     (isPlainAuto src = true ∧ out = [wordOf "Auto"]) ∨
     (isPlainAuto src = false ∧ ∃ flags, fetchFlags mwords opt src ign = .ok flags ∧
-      out = mwords.map (render flags)) := by
+      out = mwords.map (renderStar flags)) := by
   rw [choiceFetch_eq] at h
   split at h
   · cases h
@@ -210,19 +210,19 @@ theorem stripStar_of_not_star (v : Str) (h : (stripStar v).2 = false) : stripSta
   · rfl
 
 theorem render_name (flags : Flags) (w : Word) :
-    (render flags w).quote = w.quote ∧ (render flags w).line = w.line ∧
-    ((render flags w).value = (stripStar w.value).1 ∨
-     (render flags w).value = '*' :: (stripStar w.value).1) := by
+    (renderStar flags w).quote = w.quote ∧ (renderStar flags w).line = w.line ∧
+    ((renderStar flags w).value = (stripStar w.value).1 ∨
+     (renderStar flags w).value = '*' :: (stripStar w.value).1) := by
   refine ⟨rfl, rfl, ?_⟩
-  unfold render
+  unfold renderStar
   simp only
   split
   · exact .inr rfl
   · exact .inl rfl
 
 theorem render_stripStar (flags : Flags) (w : Word) (h : (stripStar (stripStar w.value).1).2 = false) :
-    (stripStar (render flags w).value).1 = (stripStar w.value).1 := by
-  unfold render
+    (stripStar (renderStar flags w).value).1 = (stripStar w.value).1 := by
+  unfold renderStar
   simp only
   split
   · rfl
@@ -432,7 +432,7 @@ theorem choiceFetch_star_only (mwords : List Word) (opt : AttrVal) (src : List W
     apply List.map_congr_left
     intro w hw
     have hk : lower (stripStar w.value).1 ∈ altKeys mwords := List.mem_map.mpr ⟨w, hw, rfl⟩
-    unfold render
+    unfold renderStar
     simp only
     rw [key _ hk, flagGet_flags0]
     simp only [hk, ↓reduceIte]
